@@ -198,27 +198,35 @@ def run(ctx: Any, prog: Program) -> None:
                     ks.add('archfile')
             return ks
 
-        def rec(stmts: List[ast.stmt], ctxk: str) -> None:
+        def helpers_in(st: ast.AST) -> List[ast.AST]:
+            # private helpers of FileInfo called on self are analysed in the context of the call (read()/verify() may share one)
+            return [fm[c.func.attr] for c in ast.walk(st) if isinstance(c, ast.Call) and isinstance(c.func, ast.Attribute) and dotted(c.func.value) == 'self'
+                    and c.func.attr in fm and c.func.attr not in ('read', 'verify', 'write') and fm[c.func.attr] is not fn]
+
+        def rec(stmts: List[ast.stmt], ctxk: str, depth: int = 0) -> None:
             for st in stmts:
+                if depth < 2 and not isinstance(st, (ast.If, ast.With, ast.For, ast.While, ast.Try)):
+                    for h in helpers_in(st):
+                        rec(h.body, ctxk, depth + 1)
                 if isinstance(st, ast.If):
                     t = ast.unparse(st.test).replace('self.', '')
                     if t == 'arch_index is None':
-                        rec(st.body, 'none')
-                        rec(st.orelse, 'num')
+                        rec(st.body, 'none', depth)
+                        rec(st.orelse, 'num', depth)
                         continue
                     if t == 'arch_index is not None':
-                        rec(st.body, 'num')
-                        rec(st.orelse, 'none')
+                        rec(st.body, 'num', depth)
+                        rec(st.orelse, 'none', depth)
                         continue
                     out[ctxk] |= kinds(st.test)
-                    rec(st.body, ctxk)
-                    rec(st.orelse, ctxk)
+                    rec(st.body, ctxk, depth)
+                    rec(st.orelse, ctxk, depth)
                 elif isinstance(st, (ast.With, ast.For, ast.While, ast.Try)):
                     for it in getattr(st, 'items', []):
                         out[ctxk] |= kinds(it.context_expr)
-                    rec(getattr(st, 'body', []), ctxk)
-                    rec(getattr(st, 'orelse', []), ctxk)
-                    rec(getattr(st, 'finalbody', []), ctxk)
+                    rec(getattr(st, 'body', []), ctxk, depth)
+                    rec(getattr(st, 'orelse', []), ctxk, depth)
+                    rec(getattr(st, 'finalbody', []), ctxk, depth)
                 else:
                     out[ctxk] |= kinds(st)
         rec(fn.body, 'unguarded')
@@ -231,7 +239,7 @@ def run(ctx: Any, prog: Program) -> None:
                   'vpk.footer_data and a numbered archive is opened only when arch_index is not None - otherwise write() and read() disagree and write_dirfile() drops the data',
                   func=f'FileInfo.{name}', text=f'{name} placement')
     # offsets into footer_data are relative to its start: read slices footer_data[offset: offset+arch_len]
-    rsrc = ast.unparse(fm['read'])
+    rsrc = ast.unparse(fm['read']) + ''.join(ast.unparse(fm[c.func.attr]) for c in ast.walk(fm['read']) if isinstance(c, ast.Call) and isinstance(c.func, ast.Attribute) and dotted(c.func.value) == 'self' and c.func.attr in fm)
     ctx.shape('C13.Z3', 'self.vpk.footer_data[self.offset:self.offset + self.arch_len]' in rsrc, vpk, fm['read'], 'read() must slice footer_data[offset: offset+arch_len]', func='FileInfo.read', text='footer slice')
     wfn = fm['write']
     none_if = [n for n in ast.walk(wfn) if isinstance(n, ast.If) and ast.unparse(n.test) in ('arch_index is None', 'self.arch_index is None')]
